@@ -84,6 +84,13 @@ def scenarios(tier):
     out.append({"name": "s1A||s2A from empty + EIO at T1's first reference temp file", "init": "empty",
                 "threads": {"T1": [MENU["s1A"]], "T2": [MENU["s2A"]]}, "pids": ("p1", "p2"),
                 "faults": {"T1": ("create:open:w:refs/tmp", 0, "EIO", False)}})
+    # a failing tag in a PRISTINE depth-1/width-1 store beside a tag of another cid that shares its shard directory: whatever
+    # the failing call cleans up must be its own (persistent fault: shutil.move would absorb a one-off rename error)
+    for site in ("rename:rename:refs/tmp:refs/pids", "rename:rename:refs/tmp:refs/cids"):
+        out.append({"name": "tag(p1,S1)||tag(p2,S2) pristine [depth 1 width 1] + persistent EIO at T1's %s" % site.split(":")[-1],
+                    "init": "empty", "pristine": True, "p": "1x1", "pids": ("p1", "p2"),
+                    "threads": {"T1": [("tag", "p1", "S1")], "T2": [("tag", "p2", "S2")]},
+                    "faults": {"T1": (site, 0, "EIO", True)}})
     # a store whose shard directories are shared by different contents (depth 1, width 1)
     out.append({"name": "dii(S2 wrong)||store(p1,S1) from S2 unreferenced [depth 1 width 1]", "init": "S2unref", "p": "1x1",
                 "threads": {"T1": [("dii", "S2", "badsize")], "T2": [("store", "p1", "S1", None)]}, "pids": ("p1", "p2")})
